@@ -147,7 +147,7 @@ fn make_alt(rng: &mut SplitMix, main: &GraphSpec, max_e: u64, max_l: usize) -> O
 fn gen_rng_op(rng: &mut SplitMix, t: &Target) -> Op {
     Op::SampleRng {
         seed: rng.next(),
-        kind: if rng.chance(1, 2) { RngKind::Native64 } else { RngKind::Native32 },
+        kind: *rng.pick(&[RngKind::Native64, RngKind::Native64, RngKind::Native32, RngKind::Native32, RngKind::Extreme64]),
         ed: workload::gen_edge_data(rng, &t.spec),
         st: workload::gen_settings(rng),
     }
